@@ -1,5 +1,6 @@
 import FlVerif.Op.Fld
 import FlVerif.Lemmas.CodeFld
+import FlVerif.Lemmas.CodeFunEvalFld
 
 /-! # C18 — FuzzyLite Dataset export is a faithful tabulation of the engine (grid part)
 
@@ -353,5 +354,38 @@ theorem code_grid (vars : List Py.Fld.Var) (values : Nat) (allVariables : Bool) 
         σ.max_values.map Int.toNat = mx ∧
         σ.input_values = (grid mx).map (rowOf vars σ.resolution) :=
   Op.Fld.code_grid_of increment_lex_succ rank_lt correctedRoot_eq vars values allVariables guess
+
+/-- **Tie A.**  `Gen.Code.write_from_reader` is regenerated from the source of `FldExporter.write_from_reader`
+    (`lines` = `reader.readlines()`, `parseRow` = the floats of a kept line, any function that may raise; the export
+    `self.write` is outside).  The rows it collects are the lines `Op.Fld.readerRows` keeps – the first `skip` lines,
+    blank lines and `#` lines dropped, the others stripped (`reader_filter`) – parsed in order; the first line that
+    does not parse raises its exception. -/
+theorem code_readerRows (lines : List String) (skip : Nat) (parseRow : String → Py.M (List (X Rat))) :
+    match (readerRows skip lines).mapM parseRow with
+    | .error e => Gen.Code.write_from_reader.run lines skip parseRow {} = .error e
+    | .ok rows => ∃ σ, Gen.Code.write_from_reader.run lines skip parseRow {} = .ok σ ∧ σ.input_values = rows :=
+  Op.Fld.code_readerRows lines skip parseRow
+
+/-- **Tie A.**  `Gen.Code.FldExporter_header` is regenerated from the source of `FldExporter.header` (variables are
+    represented by their names): the names `Op.Fld.header` selects, joined by the separator. -/
+theorem code_header (inputs outputs : List String) (inputValues outputValues : Bool) (sep : String) :
+    ∃ σ, Gen.Code.FldExporter_header.run inputs outputs inputValues outputValues sep {} = .ok σ ∧
+      σ.ret = some (sep.intercalate (header inputs outputs inputValues outputValues)) :=
+  Op.Fld.code_header inputs outputs inputValues outputValues sep
+
+/-- **Tie A.**  `Gen.Code.FldExporter_write` is regenerated from the source of `FldExporter.write` (`ops` = what the
+    function uses of NumPy and of the engine – `np.atleast_2d`, `shape[1]`, a column, `restart`, `variable.value = …`,
+    `process`, `input_values`, `output_values`, `np.hstack` – as arbitrary functions on arbitrary types of engines and
+    arrays; `np.savetxt` receives `out`).  It raises `ValueError` exactly when the rows have fewer columns than there
+    are input variables; otherwise the engine is restarted, the columns are assigned to the input variables in
+    order, the engine processes once, and `np.savetxt` is given the selected blocks side by side (inputs, outputs,
+    or one empty block) and the header of `code_header` (or `""` when headers are off): `Op.Fld.write`. -/
+theorem code_write {E A : Type} [Inhabited E] [Inhabited A] (ops : WriteOps E A) (inputs outputs : List String)
+    (inputValues outputValues headers : Bool) (sep : String) (e0 : E) (iv0 : A) :
+    match write ops inputs outputs inputValues outputValues headers sep e0 iv0 with
+    | none => Gen.Code.FldExporter_write.run ops inputs outputs inputValues outputValues headers sep e0 iv0 {} = .error .value
+    | some r => ∃ σ, Gen.Code.FldExporter_write.run ops inputs outputs inputValues outputValues headers sep e0 iv0 {} = .ok σ ∧
+        σ.engine = r.1 ∧ σ.out = some r.2 :=
+  Op.Fld.code_write ops inputs outputs inputValues outputValues headers sep e0 iv0
 
 end C18
